@@ -124,6 +124,14 @@ pub fn coverage(ctx: &mut Ctx, o: &Outcome, tx: &Tx) {
     if tx.wfield(5).is_some() {
         ctx.bucket("feature.redeemers");
     }
+    if let Ok(ins) = tx.inputs() {
+        if ins.iter().any(|i| o.utxos.iter().any(|u| u.txid == i.0 && u.ix == i.1 && u.ref_script_size > 0)) {
+            ctx.bucket("feature.spent-input-carries-script");
+            if o.params.ref_script_price.is_some() {
+                ctx.bucket("feature.spent-input-carries-script.with-ref-script-price");
+            }
+        }
+    }
     if tx.wfield(1).is_some() {
         ctx.bucket("feature.native-scripts");
     }
@@ -501,6 +509,12 @@ pub fn c10_monitor(ctx: &mut Ctx, o: &Outcome, tx: &Tx, _ring: &KeyRing) {
         }
     };
     let reds = tx.redeemers();
+    if o.superseded {
+        ctx.bucket("c10.history-with-superseded-plutus-registration");
+        if std::env::var("CSLMON_DEBUG").is_ok() {
+            eprintln!("SUPERSEDED reds={} log={:#?}", reds.len(), o.log);
+        }
+    }
     if reds.is_empty() {
         return;
     }
@@ -563,7 +577,9 @@ pub fn c10_monitor(ctx: &mut Ctx, o: &Outcome, tx: &Tx, _ring: &KeyRing) {
         let mk = match o.markers.iter().find(|x| x.marker == m) {
             Some(x) => x,
             None => {
-                ctx.bucket("skipped.redeemer-with-unknown-marker");
+                // a redeemer the history did not leave attached to any item of the final transaction
+                // (its item was re-registered without a script witness)
+                ctx.violation(&format!("redeemer/emitted-for-an-item-it-is-no-longer-attached-to/{}", purpose(*t)), detail(o));
                 continue;
             }
         };
@@ -959,6 +975,11 @@ pub fn c03_monitor(ctx: &mut Ctx, o: &Outcome, tx: &Tx, _ring: &KeyRing) {
                     continue;
                 }
                 seen.push(x.clause);
+                if o.verbatim_datums && x.clause == "discipline/nonempty-plutus-list-definite" {
+                    // the caller supplied that datum as bytes in this spelling; keeping it verbatim is what C04 demands
+                    ctx.bucket("info.caller-spelled-datum-kept-verbatim");
+                    continue;
+                }
                 let mut d = detail(o);
                 d["path"] = json!(x.path);
                 d["note"] = json!(x.note);
